@@ -19,7 +19,7 @@ func init() {
 
 // seq|race <init> <clients> <events>   (see ucops.RunUC; clients prefixed "@" start lazily)
 func exec(op string, args []string) []string {
-	if (op != "seq" && op != "race") || len(args) != 3 {
+	if (op != "seq" && op != "race" && op != "fault") || len(args) != 3 {
 		return []string{"bad-op"}
 	}
 	var out []string
@@ -49,6 +49,25 @@ func gen(rng *rand.Rand, tier core.Tier, emit core.Emit) {
 		n = 3000
 	}
 	durs := []int64{1 * sec, 10 * sec, 60 * sec, 180 * sec, 600 * sec, 3600 * sec, 7200 * sec}
+	// a storage fault during one removal of the pass must not spare the other outdated servers
+	for ns := 2; ns <= 4; ns++ {
+		var init []string
+		for i := 0; i < ns; i++ {
+			init = append(init, fmt.Sprintf("report|%s|10481|%s|%s|%d", servers[i].addr, servers[i].id, hexs("old"), i))
+		}
+		init = append(init, fmt.Sprintf("adv%d", 3601*sec))
+		for victim := 0; victim < ns; victim++ {
+			for _, k := range []int{0, 1, 3, 4} {
+				for _, ev := range []string{"yb", "ya"} {
+					pre := "c0," // the scan
+					for i := 0; i < victim; i++ {
+						pre += "c0,"
+					}
+					emit("fault", strings.Join(init, ","), fmt.Sprintf("clean|%d", 3600*sec), fmt.Sprintf("%s%s0:%d,e", pre, ev, k))
+				}
+			}
+		}
+	}
 	for c := 0; c < n; c++ {
 		liveness := durs[rng.Intn(len(durs))]
 		retention := durs[rng.Intn(len(durs))]
